@@ -94,13 +94,26 @@ func TestC04(t *testing.T) {
 	close(ch)
 	wg.Wait()
 
-	// circuit-open histories (olla engine)
-	rounds := rep.Pick(1, 6)
+	// circuit-open histories (olla engine): endpoint k has an open engine breaker (scripted ok),
+	// every asserted assignment for the others
+	rounds := rep.Pick(1, 4)
 	for r := 0; r < rounds; r++ {
 		for _, bal := range bals {
-			for _, others := range [][]string{{"ok"}, {"refuse", "ok"}, {"reset_before_headers", "ok"}, {"ok", "ok"}, {"ok", "refuse"}, {"refuse", "reset_before_headers"}, {"refuse"}} {
-				circuitOpenHistory(run, bal, others, id)
-				id++
+			for _, a := range assigns {
+				if !isAsserted(a) || len(a) < 2 {
+					continue
+				}
+				for k := range a {
+					if a[k] != "ok" {
+						continue
+					}
+					if !rep.Thorough() && len(a) == 3 && (id+k)%2 == 0 && bal != "priority" {
+						id++
+						continue
+					}
+					circuitOpenHistory(run, bal, a, k, id)
+					id++
+				}
 			}
 		}
 	}
@@ -141,7 +154,7 @@ func runChunk(run *rep.Run, rng *rand.Rand, eng, bal string, as [][]string, id i
 	defer f.Close()
 	hc := world.NewClient(false, 10*time.Second)
 	for ci, a := range as {
-		oneCase(run, rng, f, hc, a, fmt.Sprintf("k%dc%d", id, ci), false)
+		oneCase(run, rng, f, hc, a, fmt.Sprintf("k%dc%d", id, ci), -1)
 		f.Readmit()
 		st := f.W.Statuses()
 		for name, s := range st {
@@ -152,7 +165,7 @@ func runChunk(run *rep.Run, rng *rand.Rand, eng, bal string, as [][]string, id i
 	}
 }
 
-func oneCase(run *rep.Run, rng *rand.Rand, f *fw.FW, _ interface{}, a []string, nonce string, breakerOpenOn0 bool) {
+func oneCase(run *rep.Run, rng *rand.Rand, f *fw.FW, _ interface{}, a []string, nonce string, openIdx int) {
 	eng, bal := f.W.Spec.Engine, f.W.Spec.Balancer
 	bodyClass := []string{"none", "small", "100k"}[rng.Intn(3)]
 	var body []byte
@@ -170,8 +183,8 @@ func oneCase(run *rep.Run, rng *rand.Rand, f *fw.FW, _ interface{}, a []string, 
 	httpc := world.NewClient(false, 10*time.Second)
 	c := f.Run(httpc, nonce, mkFaults(a), "/olla/proxy/v1/chat/completions", body, hdr)
 	key := caseKey(eng, bal, a, bodyClass)
-	if breakerOpenOn0 {
-		key = "circuit-open:" + key
+	if openIdx >= 0 {
+		key = fmt.Sprintf("circuit-open@b%d:", openIdx) + key
 	}
 	run.Eval(key)
 	if run.Get("samples_taken") < 4 {
@@ -190,7 +203,7 @@ func oneCase(run *rep.Run, rng *rand.Rand, f *fw.FW, _ interface{}, a []string, 
 	}
 	hasOK := false
 	for i, k := range a {
-		if k == "ok" && !(breakerOpenOn0 && i == 0) {
+		if k == "ok" && !(i == openIdx) {
 			hasOK = true
 		}
 	}
@@ -213,7 +226,7 @@ func oneCase(run *rep.Run, rng *rand.Rand, f *fw.FW, _ interface{}, a []string, 
 		if k != "ok" {
 			failKinds[k] = true
 		}
-		if breakerOpenOn0 && i == 0 {
+		if i == openIdx {
 			failKinds["circuit-open"] = true
 		}
 	}
@@ -275,19 +288,19 @@ func oneCase(run *rep.Run, rng *rand.Rand, f *fw.FW, _ interface{}, a []string, 
 			run.Violation("C04/2xx-although-every-candidate-failed", "client got 2xx although no candidate could answer", wit)
 		}
 		for i, k := range a {
-			if k == "reset_before_headers" && per[i] != 1 && !(breakerOpenOn0 && i == 0) {
+			if k == "reset_before_headers" && per[i] != 1 && !(i == openIdx) {
 				run.Violation("C04/candidate-not-tried/"+eng, fmt.Sprintf("the request failed but candidate b%d (reset) was tried %d times", i, per[i]), wit)
 			}
 		}
 	}
-	if breakerOpenOn0 && per[0] != 0 {
+	if openIdx >= 0 && per[openIdx] != 0 {
 		run.Violation("C04/circuit-open/endpoint-contacted", "an endpoint whose engine breaker is open was contacted", wit)
 	}
 	// out of rotation: connection-failed endpoints must be offline now
 	st := f.W.Statuses()
 	mustOffline := map[int]bool{}
 	for i, k := range a {
-		if breakerOpenOn0 && i == 0 {
+		if i == openIdx {
 			continue
 		}
 		switch k {
@@ -302,7 +315,7 @@ func oneCase(run *rep.Run, rng *rand.Rand, f *fw.FW, _ interface{}, a []string, 
 				// tried iff every ok endpoint has lower priority (priorities are 100,90,80)
 				higher := true
 				for j, k2 := range a {
-					if k2 == "ok" && j < i && !(breakerOpenOn0 && j == 0) {
+					if k2 == "ok" && j < i && !(j == openIdx) {
 						higher = false
 					}
 				}
@@ -331,7 +344,7 @@ func oneCase(run *rep.Run, rng *rand.Rand, f *fw.FW, _ interface{}, a []string, 
 	}
 	anyLeft := false
 	for i := range a {
-		if !mustOffline[i] && !(breakerOpenOn0 && i == 0) && (a[i] == "ok") {
+		if !mustOffline[i] && !(i == openIdx) && (a[i] == "ok") {
 			anyLeft = true
 		}
 	}
@@ -340,8 +353,8 @@ func oneCase(run *rep.Run, rng *rand.Rand, f *fw.FW, _ interface{}, a []string, 
 	}
 }
 
-func circuitOpenHistory(run *rep.Run, bal string, others []string, id int) {
-	n := 1 + len(others)
+func circuitOpenHistory(run *rep.Run, bal string, a []string, k int, id int) {
+	n := len(a)
 	f, err := fw.New(fw.Opt{Engine: "olla", Balancer: bal, N: n})
 	if err != nil {
 		run.Inconclusive("world failed to start: " + err.Error())
@@ -350,54 +363,64 @@ func circuitOpenHistory(run *rep.Run, bal string, others []string, id int) {
 	defer f.Close()
 	hc := world.NewClient(false, 10*time.Second)
 	rng := rand.New(rand.NewSource(int64(id)))
-	// trip b0's engine breaker: five answers that are not HTTP, with every other endpoint
-	// refusing so that b0 is certainly the one tried (garbage is not retried)
+	// trip b_k's engine breaker: five answers that are not HTTP (not retried, endpoint stays
+	// healthy in the repository); every other endpoint refuses so b_k is certainly reached
+	// (the others are taken out of the candidate set by one failing health round, not by
+	// failing proxy attempts, so their own engine breakers stay closed)
+	for i, b := range f.B {
+		if i != k {
+			b.SetHealth(500, "")
+		}
+	}
+	f.W.ForceHealth()
 	trip := make([]fw.Fault, n)
-	trip[0] = fw.Fault{Kind: "garbage"}
-	for i := 1; i < n; i++ {
+	for i := range trip {
 		trip[i] = fw.Fault{Kind: "ok"}
 	}
+	trip[k] = fw.Fault{Kind: "garbage"}
 	hits := 0
-	for i := 0; i < 40 && hits < 5; i++ {
+	for i := 0; i < 8 && hits < 5; i++ {
 		c := f.Run(hc, fmt.Sprintf("t%dx%d", id, i), trip, "", nil, nil)
 		for _, at := range c.Attempts {
-			if at.Backend == 0 {
+			if at.Backend == k {
 				hits++
+			} else {
+				run.Inconclusive("breaker-tripping request reached another endpoint")
 			}
 		}
 	}
+	f.Readmit()
 	if hits < 5 {
-		run.Inconclusive("could not route five requests to b0 to open its breaker")
+		run.Inconclusive("could not route five requests to the endpoint whose breaker should open")
 		return
 	}
-	if st := f.W.Statuses()["b0"]; st != "healthy" {
-		run.Inconclusive("b0 not healthy in the repository after tripping its engine breaker: " + st)
+	if st := f.W.Statuses()[fmt.Sprintf("b%d", k)]; st != "healthy" {
+		run.Inconclusive("endpoint not healthy in the repository after tripping its engine breaker: " + st)
 		return
 	}
-	a := append([]string{"ok"}, others...)
 	run.Count("circuit_open_cases", 1)
-	oneCase(run, rng, f, hc, a, fmt.Sprintf("co%d", id), true)
+	oneCase(run, rng, f, hc, a, fmt.Sprintf("co%d", id), k)
 	// after the breaker timeout the endpoint must be probed and serve again
 	f.Readmit()
-	if sh := engineBreaker(f); sh != nil {
+	if sh := engineBreaker(f, k); sh != nil {
 		sh.VerifShift(31 * time.Second)
-		only0 := make([]fw.Fault, n)
-		only0[0] = fw.Fault{Kind: "ok"}
-		for i := 1; i < n; i++ {
-			only0[i] = fw.Fault{Kind: "refuse"}
+		only := make([]fw.Fault, n)
+		for i := range only {
+			only[i] = fw.Fault{Kind: "refuse"}
 		}
-		c := f.Run(hc, fmt.Sprintf("co%dr", id), only0, "", nil, nil)
+		only[k] = fw.Fault{Kind: "ok"}
+		c := f.Run(hc, fmt.Sprintf("co%dr", id), only, "", nil, nil)
 		if !(c.Res.Status >= 200 && c.Res.Status < 300) {
-			run.Violation("C04/circuit-open/not-reprobed-after-timeout", fmt.Sprintf("31 s after the last failure, with b0 the only reachable endpoint, the request got %d", c.Res.Status), map[string]any{"client": c.Res, "attempts": c.Attempts})
+			run.Violation("C04/circuit-open/not-reprobed-after-timeout", fmt.Sprintf("31 s after the last failure, with b%d the only reachable endpoint, the request got %d", k, c.Res.Status), map[string]any{"client": c.Res, "attempts": c.Attempts})
 		}
 		run.Count("circuit_reprobe_cases", 1)
 	}
 }
 
-func engineBreaker(f *fw.FW) shifter {
+func engineBreaker(f *fw.FW, k int) shifter {
 	svc, ok := f.W.ProxyService().(*olla.Service)
 	if !ok {
 		return nil
 	}
-	return svc.GetCircuitBreaker("b0")
+	return svc.GetCircuitBreaker(fmt.Sprintf("b%d", k))
 }
